@@ -116,9 +116,15 @@ def representatives(T, limit=10):
             for cand in ('a  b', 'x\ny', 'a&b<c>"d\'', 'p\tq', '\u00e9t\u00e9', '1'):
                 if L.valid_text(cand, False):
                     add(cand)
+            if T.get('patterns') or T['kind'] == 'date':
+                for cand in lex.FIXED_CANDIDATES:
+                    if L.valid_text(cand, False) and L.collapse(cand) == cand:
+                        add(cand)
             v = z3.String('v')
             plain = z3.Plus(rx.cls([c for c in rx.SIGMA if c.isascii() and (c.isalnum() or c in '#.-:')]))
             for ln in (1, 2, 3, 6, None):
+                if out and (T.get('patterns') or T['kind'] == 'date'):
+                    break          # representatives from the fixed candidates: no (slow, timeout-prone) pattern solving
                 s = z3.Solver()
                 s.set('timeout', 4000)
                 s.add(L.str_ok(v, False), z3.InRe(v, z3.Intersect(lex.normalised_re(L.ws), plain)))
@@ -127,7 +133,7 @@ def representatives(T, limit=10):
                 else:
                     s.add(z3.Length(v) >= 7, z3.Length(v) <= 12)
                 if str(s.check()) == 'sat':
-                    add(lang.unescape(s.model().eval(v, model_completion=True).as_string()))
+                    add(lex.canonical_str(s, v))
             add(lib.sample_for(T))
     _REP[key] = out[:limit]
     return _REP[key]
